@@ -303,7 +303,16 @@ pub fn reject_case<F: FElem>(prop: &str, which: &str, conf: Confidence, xs: &[F]
             let after = if geo { gstats!(g) } else { gstats!(h) };
             let ci = if geo { enc_cires(&g.ci_mean(conf)) } else { enc_cires(&h.ci_mean(conf)) };
             let one = if geo { enc_cires(&Geometric::<F>::ci(conf, &v)) } else { enc_cires(&Harmonic::<F>::ci(conf, &v)) };
-            format!("{} | {} | {} | {} | {}", first_err, before, after, ci, one)
+            // the same data as one batch: `extend` stops at the rejected value (documented as append for each value)
+            let mut g2 = Geometric::<F>::new();
+            let mut h2 = Harmonic::<F>::new();
+            let r2 = if geo { g2.extend(&v) } else { h2.extend(&v) };
+            let ext_err = match r2 {
+                Ok(()) => String::from("none"),
+                Err(e) => enc_cierr(&e),
+            };
+            let ext_after = if geo { gstats!(g2) } else { gstats!(h2) };
+            format!("{} | {} | {} | {} | {} | {} | {}", first_err, before, after, ci, one, ext_err, ext_after)
         })
     };
     format!(
@@ -733,6 +742,16 @@ pub fn c11(out: &mut Vec<String>, rng: &mut Rng, tier: &str) {
             out.push(expect("sane-or-InvalidInputData", unpaired_case::<f64>("C11", conf, &xs, &[1.0, 2.0, 3.0])));
             out.push(expect("sane-or-InvalidInputData", geo_case::<f64>("C11", conf, &xs)));
             out.push(expect("sane-or-InvalidInputData", harm_case::<f64>("C11", conf, &xs)));
+        }
+        // unpaired comparisons of samples whose spreads lie where the fourth powers in the effective number of
+        // degrees of freedom underflow (spreads around 2^-256 .. 2^-272): valid data, so a sane interval
+        for k in 225..300 {
+            for mant in [1.0f64, 1.3, 1.65, 1.9] {
+                let m = mant * (2.0f64).powi(-k);
+                out.push(expect("sane", unpaired_case::<f64>("C11", conf, &[0.0, m], &[1.0, 1.0, 1.0])));
+                out.push(expect("sane", unpaired_case::<f64>("C11", conf, &[1.0, 1.0, 1.0, 1.0], &[m, 0.0, m])));
+                out.push(expect("sane", unpaired_case::<f64>("C11", conf, &[0.0, m, 2.0 * m], &[m, 0.0, 0.5 * m, m])));
+            }
         }
         for m in [1e30f32, 1e25, 1e-30, 1e-44] {
             let xs = vec![m, 2.0 * m, 3.0 * m, 1.5 * m];
